@@ -111,15 +111,35 @@ def string_tokens(repo: Repo, rep):
 
 
 def _is_ast_compare(repo: Repo, fn: Func) -> bool:
-    """Does this helper return a comparison of ast.dump(ast.parse(x)) / literal_eval / token lists of its two arguments?"""
+    """Does this helper answer truthy only through a comparison of ast.dump(ast.parse(x)) / literal_eval / token lists of its two arguments?
+    Every `return` must be that comparison or a constant False / None: a shortcut such as `if a.split() == b.split(): return True` in
+    front of the parse accepts text whose string literals differ in their whitespace."""
+    found = False
     for r in body_nodes(fn.node):
-        if isinstance(r, ast.Return) and r.value is not None:
-            for x in ast.walk(r.value):
+        if isinstance(r, ast.Return):
+            v = r.value
+            if v is None or (isinstance(v, ast.Constant) and not v.value):
+                continue
+            ok = False
+            for x in ast.walk(v):
                 if isinstance(x, ast.Compare) and len(x.ops) == 1 and isinstance(x.ops[0], (ast.Eq, ast.NotEq)):
                     t = norm(x)
                     if ("ast.dump" in t and "parse" in t) or "literal_eval" in t or "_token_of" in t or "value_to_token" in t:
-                        return True
-    return False
+                        ok = True
+            if isinstance(v, ast.Name):
+                # the comparison kept in a local
+                for a_ in body_nodes(fn.node):
+                    if isinstance(a_, ast.Assign) and any(isinstance(t_, ast.Name) and t_.id == v.id for t_ in a_.targets):
+                        t = norm(a_.value)
+                        if isinstance(a_.value, ast.Constant) and not a_.value.value:
+                            continue
+                        if not (isinstance(a_.value, ast.Compare) and (("ast.dump" in t and "parse" in t) or "literal_eval" in t)):
+                            return False
+                        ok = True
+            if not ok:
+                return False
+            found = True
+    return found
 
 
 def fmt_taint_fragment(repo: Repo, rep):
